@@ -41,9 +41,79 @@ Definition plain_field (name : string) (t : ty) (req : bool) (default : option p
 
 (* class Node(Schema): __options__ = Options(max_depth=d); v: int; link: List['Node'] = Field(default_factory=list) *)
 Definition list_link : ty := TRule (Some (TPrim TList)) [TData 0] false [] None None None.
-Definition node_decl (d : option Z) : cdecl := {|
+Definition node_decl_ex (ex : list string) (d : option Z) : cdecl := {|
   c_fields := [("v", plain_field "v" (TPrim TInt) true None);
                ("link", plain_field "link" list_link false (Some (PList [])))];
   c_alias_map := []; c_ci_names := []; c_options := opts_with_depth d; c_dfs := false;
-  c_exclude_vars := []; c_dict_based := true |}.
-Definition node_world (d : option Z) : decls := fun c => match c with O => Some (node_decl d) | _ => None end.
+  c_exclude_vars := ex; c_dict_based := true |}.
+Definition node_world_ex (ex : list string) (d : option Z) : decls :=
+  fun c => match c with O => Some (node_decl_ex ex d) | _ => None end.
+Definition node_decl := node_decl_ex [].
+Definition node_world := node_world_ex [].
+
+(* ---------- the same class with a mapping link: `link: Dict[str, 'Node']` ---------- *)
+Inductive dtree := DNode (v : Z) (kids : list (string * dtree)).
+
+Fixpoint dheight (t : dtree) : nat :=
+  match t with
+  | DNode _ kids => S (fold_right (fun kc acc => Nat.max (let '(_, c) := kc in dheight c) acc) O kids)
+  end.
+Definition dmax_height (kids : list (string * dtree)) : nat :=
+  fold_right (fun kc acc => Nat.max (let '(_, c) := kc in dheight c) acc) O kids.
+
+Fixpoint to_val_d (t : dtree) : pyval :=
+  match t with
+  | DNode v kids =>
+      PDict [(PStr "v", PInt v);
+             (PStr "link", PDict (map (fun kc => let '(k, c) := kc in (PStr k, to_val_d c)) kids))]
+  end.
+Fixpoint inst_d (t : dtree) : pyval :=
+  match t with
+  | DNode v kids =>
+      PInst 0 [("v", PInt v);
+               ("link", PDict (map (fun kc => let '(k, c) := kc in (PStr k, inst_d c)) kids))]
+  end.
+(* a Python dict has distinct keys, at every node *)
+Fixpoint wf_dtree (t : dtree) : Prop :=
+  match t with
+  | DNode _ kids => NoDup (map fst kids) /\
+                    fold_right (fun kc acc => (let '(_, c) := kc in wf_dtree c) /\ acc) True kids
+  end.
+
+Definition dict_link : ty := TRule (Some (TPrim TDict)) [TPrim TStr; TData 0] false [] None None None.
+Definition dnode_decl_ex (ex : list string) (d : option Z) : cdecl := {|
+  c_fields := [("v", plain_field "v" (TPrim TInt) true None);
+               ("link", plain_field "link" dict_link false (Some (PDict [])))];
+  c_alias_map := []; c_ci_names := []; c_options := opts_with_depth d; c_dfs := false;
+  c_exclude_vars := ex; c_dict_based := true |}.
+Definition dnode_world_ex (ex : list string) (d : option Z) : decls :=
+  fun c => match c with O => Some (dnode_decl_ex ex d) | _ => None end.
+Definition dnode_decl := dnode_decl_ex [].
+Definition dnode_world := dnode_world_ex [].
+
+(* ---------- the same class with an optional link: `link: Optional['Node'] = None` ---------- *)
+(* the input is a chain; its nesting depth is its length *)
+Inductive chain := CEnd (v : Z) | CNext (v : Z) (next : chain).
+Fixpoint clength (c : chain) : nat := match c with CEnd _ => 1%nat | CNext _ n => S (clength n) end.
+Fixpoint to_val_c (c : chain) : pyval :=
+  match c with
+  | CEnd v => PDict [(PStr "v", PInt v)]
+  | CNext v n => PDict [(PStr "v", PInt v); (PStr "link", to_val_c n)]
+  end.
+Fixpoint inst_c (c : chain) : pyval :=
+  match c with
+  | CEnd v => PInst 0 [("v", PInt v); ("link", PNone)]
+  | CNext v n => PInst 0 [("v", PInt v); ("link", inst_c n)]
+  end.
+Definition opt_union : ty := TLogic COr [TData 0; TPrim TNone].
+(* a field annotated Optional[...] is held as a Rule whose origin is the union *)
+Definition opt_link : ty := TRule (Some opt_union) [] false [] None None None.
+Definition onode_decl_ex (ex : list string) (d : option Z) : cdecl := {|
+  c_fields := [("v", plain_field "v" (TPrim TInt) true None);
+               ("link", plain_field "link" opt_link false (Some PNone))];
+  c_alias_map := []; c_ci_names := []; c_options := opts_with_depth d; c_dfs := false;
+  c_exclude_vars := ex; c_dict_based := true |}.
+Definition onode_world_ex (ex : list string) (d : option Z) : decls :=
+  fun c => match c with O => Some (onode_decl_ex ex d) | _ => None end.
+Definition onode_decl := onode_decl_ex [].
+Definition onode_world := onode_world_ex [].
